@@ -239,18 +239,32 @@ impl PendingSubscriptionSink {
 		);
 		let success = response.is_success();
 
+		// Register the subscription before the response goes out: an unsubscribe call that arrives
+		// right after the response must find it. The entry is taken back if the response can't be delivered.
+		let (tx, rx) = mpsc::channel(1);
+		if success {
+			self.subscribers.lock().insert(self.uniq_sub.clone(), (self.inner.clone(), rx));
+		}
+
 		// TODO: #1052
 		//
 		// Ideally the message should be sent only once.
 		//
 		// The same message is sent twice here because one is sent directly to the transport layer and
 		// the other one is sent internally to accept the subscription.
-		self.inner.send(response.to_json()).await.map_err(|_| PendingSubscriptionAcceptError)?;
-		self.subscribe.send(response).map_err(|_| PendingSubscriptionAcceptError)?;
+		let delivered = match self.inner.send(response.to_json()).await {
+			Ok(()) => self.subscribe.send(response).is_ok(),
+			Err(_) => false,
+		};
+
+		if !delivered {
+			if success {
+				self.subscribers.lock().remove(&self.uniq_sub);
+			}
+			return Err(PendingSubscriptionAcceptError);
+		}
 
 		if success {
-			let (tx, rx) = mpsc::channel(1);
-			self.subscribers.lock().insert(self.uniq_sub.clone(), (self.inner.clone(), rx));
 			Ok(SubscriptionSink {
 				inner: self.inner,
 				method: self.method,
